@@ -48,6 +48,9 @@ ASSUMPTIONS = [
     "'first connection that succeeded' = first success the process learned of (SO_ERROR read "
     "returning 0); successes learned at the same simulated instant are ties",
     "timers may fire late, never early (2e-6 s tolerance for wall-clock float conversion)",
+    "a bind() error that is raised to the caller of connect() is an accepted way to complete "
+    "(tcpclient documents 'fail loudly if unable to use the IP/port'); a bind error that does "
+    "not reach the caller is an attempt that failed synchronously",
 ]
 
 AF4 = int(_socket.AF_INET)
@@ -74,11 +77,11 @@ def gen(rng, tier, index):
     # ---- overall timeout
     r = rng.random()
     T = None  # deadline in units (approx.) for the delay grid
-    if r < 0.30:
+    if r < 0.36:
         timeout = None
     elif r < 0.62:
-        T = rng.choice([0, 1, 2, 3, 100, 305, 306, 307, 308, 309, 310, 400, 612, 614, 615,
-                        616, 617, 700, 1024])
+        T = rng.choice([0, 1, 3, 100, 100, 305, 306, 307, 308, 309, 310, 400, 400, 612, 614, 615,
+                        616, 617, 700, 700, 1024, 1024])
         timeout = {"kind": "float", "units": T, "p03": False}
     elif r < 0.75:
         k = rng.choice([0, 1, 2, 3, 5, 100, 306, 307, 308, 309, 400])
@@ -102,6 +105,7 @@ def gen(rng, tier, index):
             if d >= 0:
                 grid.append(d)
     mode = rng.random()  # 0..0.25: everything quick (failure cascades); else mixed
+    tie_d = rng.choice(grid) if rng.random() < 0.25 else None  # equal delays: exact ties
     # ---- addresses
     n = rng.choice([1, 2, 2, 3, 3, 3, 4, 4, 4])
     fam0 = rng.choice([4, 6])
@@ -121,17 +125,42 @@ def gen(rng, tier, index):
             d = rng.choice([0, 0, 1, 1, 2, 3])
         else:
             d = rng.choice(grid)
+        if tie_d is not None and rng.random() < 0.8:
+            d = tie_d
         a = {"fam": fam, "ip": rng.randint(0, 2), "o": o, "d": d}
         if o == "refuse":
             a["errno"] = rng.choice(REFUSE_ERRNOS)
         elif o == "sync_error":
             a["errno"] = rng.choice(SYNC_ERRNOS)
         addrs.append(a)
+    r = rng.random()
+    if r < 0.07:
+        # two successes completing at the same instant: a failed primary starts both queues
+        d0, d = rng.choice([0, 0, 1, 2, 5]), rng.choice([0, 1, 2, 5, 300, 307])
+        addrs = [{"fam": fam0, "ip": 0, "o": rng.choice(["refuse", "sync_error"]), "d": d0,
+                  "errno": _errno.ECONNREFUSED},
+                 {"fam": fam0, "ip": 1, "o": "accept", "d": d},
+                 {"fam": 10 - fam0, "ip": 0, "o": "accept", "d": d + rng.choice([0, 0, 0, 1])}]
+        if rng.random() < 0.3:
+            addrs.append({"fam": rng.choice([4, 6]), "ip": 2, "o": rng.choice(OUTCOMES[:3]),
+                          "d": rng.choice(grid)})
+        if rng.random() < 0.5:
+            addrs[1], addrs[2] = addrs[2], addrs[1]
+    elif r < 0.14:
+        # slow primary against a secondary started by the 0.3 s timer (ties need lateness)
+        d2 = rng.choice([0, 1, 2, 5, 100])
+        addrs = [{"fam": fam0, "ip": 0, "o": rng.choice(["accept", "accept", "refuse", "blackhole"]),
+                  "d": HE_UNITS + d2 + rng.choice([0, 1, 1, 2]), "errno": _errno.ETIMEDOUT},
+                 {"fam": 10 - fam0, "ip": 0, "o": rng.choice(["accept", "accept", "refuse"]),
+                  "d": d2, "errno": _errno.ECONNREFUSED}]
+        if rng.random() < 0.4:
+            addrs.insert(rng.randint(1, 2), {"fam": rng.choice([4, 6]), "ip": 1,
+                                             "o": rng.choice(OUTCOMES[:3]), "d": rng.choice(grid)})
     # ---- dns
     dns = {"delay": 0, "fail": False}
     r = rng.random()
-    if r < 0.25:
-        cand = [1, 2, 5, 306, 307, 308]
+    if r < 0.18:
+        cand = [1, 1, 2, 5, 5, 306, 307, 308]
         if T is not None:
             cand += [max(0, T - 1), T, T + 1]
         dns["delay"] = rng.choice(cand)
@@ -154,8 +183,8 @@ def gen(rng, tier, index):
         ctor_fail = sorted({rng.choice([0, 0, 1, 1, 2, 3]) for _ in range(rng.choice([1, 1, 2]))})
     # ---- schedule
     tapes = {}
-    if rng.random() < 0.40:
-        tapes["late"] = [rng.choice([0, 0, 1, 1, 2, 3, 5, 307]) for _ in range(rng.randint(1, 8))]
+    if rng.random() < 0.45:
+        tapes["late"] = [rng.choice([0, 0, 1, 1, 1, 2, 3, 5, 307]) for _ in range(rng.randint(1, 8))]
     if rng.random() < 0.30:
         tapes["order"] = [rng.choice([0, 1, 2, 64, 65]) for _ in range(rng.randint(1, 6))]
     if rng.random() < 0.30:
@@ -351,7 +380,7 @@ def run(scn, full_log=False):
                         a.n_seq, a.n_t, a.n_res = nseq(), loop._now, "fail"
                     elif was == "connected":
                         a.n_seq, a.n_t, a.n_res = nseq(), loop._now, "ok"
-                        if st["done"] is not None:
+                        if any(b.n_res == "ok" for b in atts if b is not a):
                             probe("late_arrival_success")
                 return v
 
@@ -387,7 +416,7 @@ def run(scn, full_log=False):
                 # observation only: the first loop iteration whose clock has reached the deadline
                 def mark():
                     st["marker"] = (nseq(), loop._now)
-                loop.call_later(tmo_s, mark)
+                st["mark_h"] = loop.call_later(tmo_s, mark)
             kw = {}
             if af:
                 kw["af"] = _socket.AF_INET if af == 4 else _socket.AF_INET6
@@ -407,6 +436,10 @@ def run(scn, full_log=False):
                 return None
             st["done"] = (nseq(), loop._now, "stream", None)
             st["stream"] = stream
+            # reach only (not a rule): timers still armed when a stream has been returned
+            n_t = sum(1 for h in loop._scheduled if not h._cancelled and h is not st.get("mark_h"))
+            if n_t:
+                probe("timers_armed_after_stream_result", n_t)
             log.ev("result", "stream", getattr(getattr(stream, "socket", None), "_fd", None))
             return stream
 
@@ -507,6 +540,9 @@ def run(scn, full_log=False):
                 win = next((a for a in atts if a.sock is stream_sock), None)
                 if not chk.get("is_iostream"):
                     bad("result.not_a_stream", f"connect returned {type(st.get('stream')).__name__}")
+                elif chk.get("closed_at_return"):
+                    bad("result.stream_unusable", "the returned stream is already closed",
+                        f"result.stream_unusable/{taint}")
                 elif win is None or win.n_res != "ok":
                     bad("result.stream_not_connected",
                         f"returned stream's socket "
@@ -529,8 +565,6 @@ def run(scn, full_log=False):
                             f"with no connection; a stream connected later "
                             f"(+{win.n_t - 4096.0:.6f}) was returned instead of TimeoutError",
                             f"timeout.missed/{taint}")
-                    if mk is not None and win.n_t == mk[1]:
-                        probe("deadline_tie_success_won")
                     if chk.get("closed_at_return") or chk.get("closed_after_idle") \
                             or chk.get("closed_after_write") or chk.get("write_error"):
                         bad("result.stream_unusable",
@@ -574,8 +608,13 @@ def run(scn, full_log=False):
                 exc = st.get("exc")
                 if not isinstance(exc, Exception):
                     bad("result.base_exception", f"connect raised {d_name}")
+                bind_err = [a for a in atts if a.res == "bind" and a.n_seq < d_seq]
                 if resolver_fails:
                     probe("resolver_error")
+                elif bind_err and d_name == "gaierror":
+                    # documented fail-fast ("Fail loudly if unable to use the IP/port"): a bind
+                    # error that reaches the caller ends the connect; see ASSUMPTIONS
+                    probe("bind_error_raised_to_caller")
                 else:
                     fb = failed_by(d_seq)
                     if first_ok is not None and first_ok.n_seq < d_seq:
@@ -632,7 +671,7 @@ def run(scn, full_log=False):
                 what = ", ".join(f"socket {a.i} (fd {a.fd}, {a.key}, outcome {a.res})" for a in leaked)
                 bad("leak.socket", f"still open at quiescence: {what}; connect result: "
                     f"{done[2] if done else 'pending'}",
-                    f"leak.socket/{'pending' if done is None else done[2]}/{taint}")
+                    f"leak.socket/{taint}")
             if len(atts) != len(net.created):
                 bad("harness.untracked_socket", "socket created outside the hook")
 
